@@ -8,7 +8,7 @@ transmissions of a sender that numbers its packets consecutively and repeats pac
   `Valid` packets applies to everything the sender emits).
 * `Msg`, `Ev`, `evTxs`, `want` - a sender that sends messages with consecutive continuity indices
   (modulo 256), what happens to each on the air (arrives / damaged and repaired by its repeat /
-  damaged and the repeat lost / damaged without repeat / dropped), and what the application must see.
+  damaged and the repeat lost / a later repeat arrives / damaged without repeat / dropped), and what the application must see.
 * `expectedR_events` - `Spec.expectedR false` of such a transmission is `want`.
 -/
 namespace Zvbi.Idl
@@ -173,11 +173,16 @@ def pk (channel : Nat) (spa : List Nat) (ci : Nat) (m : Msg) (j : Nat) : Spec.Pk
 inductive Ev
   /-- the first transmission arrives intact; then the repeats numbered `dups` arrive intact -/
   | intact (m : Msg) (dups : List Nat)
-  /-- the first transmission arrives as `d`, damaged but announcing a repeat; repeat 1 arrives intact,
-      then the repeats numbered `dups` -/
-  | repaired (m : Msg) (d : Spec.Pkt) (dups : List Nat)
-  /-- the first transmission arrives as `d`, damaged and announcing a repeat; no repeat arrives -/
-  | unrepaired (d : Spec.Pkt)
+  /-- the first transmission and possibly some repeats arrive damaged (`ds`, then `d`), each announcing
+      a(nother) repeat; `d` is transmission number `k - 1`, and repeat `k` arrives intact, then the
+      repeats numbered `dups` -/
+  | repaired (m : Msg) (ds : List Spec.Pkt) (d : Spec.Pkt) (k : Nat) (dups : List Nat)
+  /-- the first transmission and possibly some repeats arrive damaged (`ds`, then `d`), each announcing
+      a(nother) repeat; no repeat arrives intact -/
+  | unrepaired (ds : List Spec.Pkt) (d : Spec.Pkt)
+  /-- as before, but the repeat that arrives intact (number `j`) is not the one announced last: the
+      announced one was lost, the receiver cannot know what else it missed -/
+  | lateRepeat (m : Msg) (ds : List Spec.Pkt) (d : Spec.Pkt) (j : Nat)
   /-- the first transmission arrives as `d`, damaged, announcing no repeat -/
   | lost (d : Spec.Pkt)
   /-- nothing of this message arrives -/
@@ -192,9 +197,11 @@ def Ev.isMsg : Ev → Bool
 
 def evTxs (channel : Nat) (spa : List Nat) (ci : Nat) : Ev → List Spec.Tx
   | .intact m dups => .data (pk channel spa ci m 0) :: dups.map (fun j => .rep (pk channel spa ci m j))
-  | .repaired m d dups =>
-    .damagedRep d :: .rep (pk channel spa ci m 1) :: dups.map (fun j => .rep (pk channel spa ci m j))
-  | .unrepaired d => [.damagedRep d]
+  | .repaired m ds d k dups =>
+    ds.map .damagedRep ++
+      (.damagedRep d :: .rep (pk channel spa ci m k) :: dups.map (fun j => .rep (pk channel spa ci m j)))
+  | .unrepaired ds d => ds.map .damagedRep ++ [.damagedRep d]
+  | .lateRepeat m ds d j => ds.map .damagedRep ++ [.damagedRep d, .rep (pk channel spa ci m j)]
   | .lost d => [.damaged d]
   | .dropped => []
   | .foreign b => [.foreign b]
@@ -206,11 +213,17 @@ def txsOf (channel : Nat) (spa : List Nat) : Nat → List Ev → List Spec.Tx
 
 def dupsOk (m : Msg) (dups : List Nat) : Prop := (∀ j ∈ dups, 1 ≤ j ∧ j ≤ 15) ∧ (dups ≠ [] → m.ft &&& 2 ≠ 0)
 
+/-- a packet of ours that arrives damaged and announces a repeat -/
+def DmgRep (channel : Nat) (spa : List Nat) (d : Spec.Pkt) : Prop :=
+  d.DamagedRep ∧ d.channel = channel ∧ Spec.spaVal d.spa = Spec.spaVal spa
+
 def EvOk (channel : Nat) (spa : List Nat) (ci : Nat) : Ev → Prop
   | .intact m dups => m.Ok spa.length ci ∧ dupsOk m dups
-  | .repaired m d dups => m.Ok spa.length ci ∧ m.ft &&& 2 ≠ 0 ∧ dupsOk m dups ∧
-      d.DamagedRep ∧ d.channel = channel ∧ Spec.spaVal d.spa = Spec.spaVal spa ∧ d.ri &&& 0xF = 0
-  | .unrepaired d => d.DamagedRep ∧ d.channel = channel ∧ Spec.spaVal d.spa = Spec.spaVal spa ∧ d.ri &&& 0xF = 0
+  | .repaired m ds d k dups => m.Ok spa.length ci ∧ m.ft &&& 2 ≠ 0 ∧ dupsOk m dups ∧
+      (∀ x ∈ ds, DmgRep channel spa x) ∧ DmgRep channel spa d ∧ 1 ≤ k ∧ k ≤ 15 ∧ d.ri &&& 0xF = k - 1
+  | .unrepaired ds d => (∀ x ∈ ds, DmgRep channel spa x) ∧ DmgRep channel spa d ∧ d.ri &&& 0xF ≤ 14
+  | .lateRepeat m ds d j => m.Ok spa.length ci ∧ m.ft &&& 2 ≠ 0 ∧ (∀ x ∈ ds, DmgRep channel spa x) ∧
+      DmgRep channel spa d ∧ 1 ≤ j ∧ j ≤ 15 ∧ (d.ri + 1) &&& 0xF ≠ j
   | .lost d => d.Damaged ∧ d.channel = channel ∧ Spec.spaVal d.spa = Spec.spaVal spa
   | .dropped => True
   | .foreign b => Spec.NotForUs channel (Spec.spaVal spa) b
@@ -234,9 +247,10 @@ def want : Bool → Option Nat → Bool → List Ev → List (Nat × List Nat)
   | pend, sync, aw, .intact m _ :: r =>
     ((if (pend || aw || gapBad (if aw then none else sync)) then 1 else 0) ||| m.dep, m.data) ::
       want false (some 0) false r
-  | pend, sync, _, .repaired m _ _ :: r =>
+  | pend, sync, _, .repaired m _ _ _ _ :: r =>
     ((if (pend || gapBad sync) then 1 else 0) ||| m.dep, m.data) :: want false (some 0) false r
-  | pend, sync, _, .unrepaired _ :: r => want pend (sync.map (· + 1)) true r
+  | pend, sync, _, .unrepaired _ _ :: r => want pend (sync.map (· + 1)) true r
+  | _, _, _, .lateRepeat _ _ _ _ :: r => want true none false r
   | _, _, _, .lost _ :: r => want true none false r
   | pend, sync, aw, .dropped :: r => want pend (sync.map (· + 1)) aw r
   | pend, sync, aw, .foreign _ :: r => want pend sync aw r
@@ -311,23 +325,36 @@ theorem txs_sent (channel : Nat) (spa : List Nat) (hch : channel < 16) (hspa : s
           · rw [pk_haveRi]; simpa using hri
           · have : (pk channel spa (c % 256) m j).ri = m.ri + j := rfl
             rw [this, low_nibble_add _ _ hm.2.2.2.2.1 hj'.2]; omega
-      | repaired m d dups =>
-        obtain ⟨hm, hri, ⟨hd1, hd2⟩, hd, hdc, hda, _⟩ := he
-        simp only [evTxs, List.mem_cons, List.mem_map] at ht
-        rcases ht with rfl | rfl | ⟨j, hj, rfl⟩
-        · exact ⟨hd, hdc, hda⟩
-        · refine ⟨pk_valid channel spa _ m 1 hch hspa hspalt hci hm (by omega), rfl, rfl, ?_, ?_⟩
+      | repaired m ds d k dups =>
+        obtain ⟨hm, hri, ⟨hd1, hd2⟩, hds, hd, hk1, hk2, _⟩ := he
+        simp only [evTxs, List.mem_append, List.mem_cons, List.mem_map] at ht
+        rcases ht with ⟨x, hx, rfl⟩ | rfl | rfl | ⟨j, hj, rfl⟩
+        · exact hds x hx
+        · exact hd
+        · refine ⟨pk_valid channel spa _ m k hch hspa hspalt hci hm hk2, rfl, rfl, ?_, ?_⟩
           · rw [pk_haveRi]; simpa using hri
-          · have : (pk channel spa (c % 256) m 1).ri = m.ri + 1 := rfl
-            rw [this, low_nibble_add _ _ hm.2.2.2.2.1 (by omega)]; omega
+          · have : (pk channel spa (c % 256) m k).ri = m.ri + k := rfl
+            rw [this, low_nibble_add _ _ hm.2.2.2.2.1 hk2]; omega
         · have hj' := hd1 j hj
           refine ⟨pk_valid channel spa _ m j hch hspa hspalt hci hm hj'.2, rfl, rfl, ?_, ?_⟩
           · rw [pk_haveRi]; simpa using hri
           · have : (pk channel spa (c % 256) m j).ri = m.ri + j := rfl
             rw [this, low_nibble_add _ _ hm.2.2.2.2.1 hj'.2]; omega
-      | unrepaired d =>
-        simp only [evTxs, List.mem_cons, List.mem_nil_iff, or_false] at ht
-        subst ht; exact ⟨he.1, he.2.1, he.2.2.1⟩
+      | unrepaired ds d =>
+        simp only [evTxs, List.mem_append, List.mem_map, List.mem_cons, List.mem_nil_iff, or_false] at ht
+        rcases ht with ⟨x, hx, rfl⟩ | rfl
+        · exact he.1 x hx
+        · exact he.2.1
+      | lateRepeat m ds d j =>
+        obtain ⟨hm, hri, hds, hd, hj1, hj2, _⟩ := he
+        simp only [evTxs, List.mem_append, List.mem_map, List.mem_cons, List.mem_nil_iff, or_false] at ht
+        rcases ht with ⟨x, hx, rfl⟩ | rfl | rfl
+        · exact hds x hx
+        · exact hd
+        · refine ⟨pk_valid channel spa _ m j hch hspa hspalt hci hm hj2, rfl, rfl, ?_, ?_⟩
+          · rw [pk_haveRi]; simpa using hri
+          · have : (pk channel spa (c % 256) m j).ri = m.ri + j := rfl
+            rw [this, low_nibble_add _ _ hm.2.2.2.2.1 hj2]; omega
       | lost d =>
         simp only [evTxs, List.mem_cons, List.mem_nil_iff, or_false] at ht
         subst ht; exact he
@@ -394,7 +421,7 @@ theorem syncRel_delivered (c : Nat) : SyncRel (c + 1) (some (c % 256 + 1)) (some
 /-- awaited repeat indicator of the receiver vs. "a repeat is awaited" -/
 def AwRel : Option Nat → Bool → Prop
   | none, false => True
-  | some a, true => a &&& 0xF = 1
+  | some a, true => a &&& 0xF ≠ 0
   | _, _ => False
 
 theorem bits01 : ∀ a < 2, ∀ b < 2, (a ||| b) = (if a = 1 ∨ b = 1 then 1 else 0) ∧
@@ -417,6 +444,16 @@ theorem expectedR_dups (channel : Nat) (spa : List Nat) (ci : Nat) (m : Msg) (hr
       rw [pk_riv, if_pos hft, low_nibble_add _ _ hri hj.2]; omega
     simp only [List.map_cons, List.cons_append, Spec.expectedR, Spec.intactR, hne, ne_eq, not_false_eq_true, if_true]
     exact ih ⟨fun x hx => hd.1 x (by simp [hx]), fun _ => hft⟩
+
+/-- damaged packets that announce a repeat only change which repeat is awaited -/
+theorem expectedR_dmg (fl : Nat) (eci : Option Nat) (rest : List Spec.Tx) (d : Spec.Pkt) :
+    ∀ (ds : List Spec.Pkt) (aw : Option Nat),
+    Spec.expectedR false fl eci aw (ds.map Spec.Tx.damagedRep ++ (Spec.Tx.damagedRep d :: rest)) =
+      Spec.expectedR false fl eci (some (d.ri + 1)) rest := by
+  intro ds
+  induction ds with
+  | nil => intro aw; rfl
+  | cons x t ih => intro aw; simp only [List.map_cons, List.cons_append, Spec.expectedR]; exact ih _
 
 theorem flagNat (pend : Bool) : (if pend then 1 else 0 : Nat) < 2 := by cases pend <;> decide
 theorem gapNat (sync : Option Nat) : (if gapBad sync then 1 else 0 : Nat) < 2 := by
@@ -462,9 +499,9 @@ theorem expectedR_events (channel : Nat) (spa : List Nat) (hspa : spa.length ≤
         cases awb with
         | false => exact absurd haw (by simp [AwRel])
         | true =>
-          have ha : a &&& 0xF = 1 := haw
+          have ha : a &&& 0xF ≠ 0 := haw
           have hx : ((pk channel spa (c % 256) m 0).riv ^^^ a) &&& 0xF ≠ 0 := by
-            rw [Nat.and_xor_distrib_right, hriv, ha]; decide
+            rw [Nat.and_xor_distrib_right, hriv, Nat.zero_xor]; exact ha
           simp only [Spec.intactR, hx, hriv, ne_eq, not_true_eq_false, not_false_eq_true, if_true, if_false,
             hial, hci, hdata, Spec.lostFlag, Nat.or_zero, Bool.or_true, Bool.true_or]
           obtain ⟨_, _, b3⟩ := bits01 _ (flagNat pend) 0 (by decide)
@@ -474,20 +511,25 @@ theorem expectedR_events (channel : Nat) (spa : List Nat) (hspa : spa.length ≤
           simp only [Bool.false_eq_true, if_false] at hih'
           have e1 : (1 : Nat) &&& 0xFFFFFFFE = 0 := by decide
           rw [e1, hih']
-    | repaired m d dups =>
-      obtain ⟨hm, hft, hd, _, _, _, hdri⟩ := he
+    | repaired m ds d k dups =>
+      obtain ⟨hm, hft, hd, _, _, hk1, hk2, hdri⟩ := he
       have hri := hm.2.2.2.2.1
       have hdep := (ial_facts spa.length m.dep hspa hm.2.2.1).2.2.2
       have hih := ih (c + 1) (some (c % 256 + 1)) none false (some 0) false hr (syncRel_delivered c) trivial
-      have hial : (pk channel spa (c % 256) m 1).ial &&& 8 = m.dep := hdep
-      have hci : (pk channel spa (c % 256) m 1).ci = c % 256 := rfl
-      have hdata : (pk channel spa (c % 256) m 1).data = m.data := rfl
-      have hx : ¬ (((pk channel spa (c % 256) m 1).riv ^^^ (d.ri + 1)) &&& 0xF ≠ 0) := by
-        rw [pk_riv, if_pos hft, Nat.and_xor_distrib_right, low_nibble_add _ _ hri (by omega),
-          low_nibble_add _ _ hdri (by omega)]
-        decide
-      simp only [txsOf, evTxs, Ev.isMsg, if_true, List.cons_append, Spec.expectedR, want,
-        Spec.intactR, hx, if_false, hial, hci, hdata, Bool.false_eq_true]
+      have hial : (pk channel spa (c % 256) m k).ial &&& 8 = m.dep := hdep
+      have hci : (pk channel spa (c % 256) m k).ci = c % 256 := rfl
+      have hdata : (pk channel spa (c % 256) m k).data = m.data := rfl
+      have hdk : (d.ri + 1) &&& 0xF = k := by
+        have h1 := Nat.and_two_pow_sub_one_eq_mod d.ri 4
+        have h2 := Nat.and_two_pow_sub_one_eq_mod (d.ri + 1) 4
+        simp at h1 h2
+        omega
+      have hx : ¬ (((pk channel spa (c % 256) m k).riv ^^^ (d.ri + 1)) &&& 0xF ≠ 0) := by
+        rw [pk_riv, if_pos hft, Nat.and_xor_distrib_right, low_nibble_add _ _ hri hk2, hdk, Nat.xor_self]
+        simp
+      simp only [txsOf, evTxs, Ev.isMsg, if_true, List.append_assoc, List.cons_append, want]
+      rw [expectedR_dmg]
+      simp only [Spec.expectedR, Spec.intactR, hx, if_false, hial, hci, hdata, Bool.false_eq_true]
       rw [lostFlag_sync c eci sync hsync]
       obtain ⟨b1, b2, _⟩ := bits01 _ (flagNat pend) _ (gapNat sync)
       rw [b2, expectedR_dups channel spa _ m hri _ _ _ dups hd]
@@ -495,11 +537,33 @@ theorem expectedR_events (channel : Nat) (spa : List Nat) (hspa : spa.length ≤
       simp only [Bool.false_eq_true, if_false] at hih'
       rw [hih', b1]
       cases pend <;> cases gapBad sync <;> simp
-    | unrepaired d =>
-      obtain ⟨_, _, _, hdri⟩ := he
-      have hih := ih (c + 1) eci (some (d.ri + 1)) pend (sync.map (· + 1)) true hr (syncRel_succ c eci sync hsync)
-        (low_nibble_add _ _ hdri (by omega))
-      simp only [txsOf, evTxs, Ev.isMsg, if_true, List.cons_append, List.nil_append, Spec.expectedR, want]
+    | unrepaired ds d =>
+      obtain ⟨_, _, hdri⟩ := he
+      have hdk : (d.ri + 1) &&& 0xF ≠ 0 := by
+        have h1 := Nat.and_two_pow_sub_one_eq_mod d.ri 4
+        have h2 := Nat.and_two_pow_sub_one_eq_mod (d.ri + 1) 4
+        simp at h1 h2
+        omega
+      have hih := ih (c + 1) eci (some (d.ri + 1)) pend (sync.map (· + 1)) true hr (syncRel_succ c eci sync hsync) hdk
+      simp only [txsOf, evTxs, Ev.isMsg, if_true, List.append_assoc, List.cons_append, List.nil_append, want]
+      rw [expectedR_dmg]
+      exact hih
+    | lateRepeat m ds d j =>
+      obtain ⟨hm, hft, _, _, hj1, hj2, hne⟩ := he
+      have hri := hm.2.2.2.2.1
+      have hih := ih (c + 1) none none true none false hr trivial trivial
+      have hriv : (pk channel spa (c % 256) m j).riv &&& 0xF = j := by
+        rw [pk_riv, if_pos hft, low_nibble_add _ _ hri hj2]
+      have hx : ((pk channel spa (c % 256) m j).riv ^^^ (d.ri + 1)) &&& 0xF ≠ 0 := by
+        rw [Nat.and_xor_distrib_right, hriv]
+        intro h0
+        exact hne (eq_of_xor_eq_zero _ _ h0).symm
+      have hn : (pk channel spa (c % 256) m j).riv &&& 0xF ≠ 0 := by rw [hriv]; omega
+      simp only [txsOf, evTxs, Ev.isMsg, if_true, List.append_assoc, List.cons_append, List.nil_append, want]
+      rw [expectedR_dmg]
+      simp only [Spec.expectedR, Spec.intactR, hx, hn, ne_eq, not_false_eq_true, if_true]
+      obtain ⟨_, _, b3⟩ := bits01 _ (flagNat pend) 0 (by decide)
+      rw [b3]
       exact hih
     | lost d =>
       have hih := ih (c + 1) none none true none false hr trivial trivial
